@@ -48,33 +48,7 @@ Lemma v2_cases co sc cs nm fwd ib text p0 pat' wp cap :
      fuzzy_v2 co sc cs nm fwd ib text pat wp cap = v2_after_phase2 fwd wp lo pat st /\ p2_maxScore st <= 0).
 Proof.
   intros pat Ha Hn.
-  rewrite fuzzy_v2_unfold. fold pat. cbv zeta.
-  destruct (Nat.ltb_spec (length text) (length pat)) as [Hlt|Hge].
-  { left. exists NoMatch. split; [reflexivity|left; reflexivity]. }
-  destruct (match cap with Some c => c <? Z.of_nat (length text) * Z.of_nat (length pat) | None => false end) eqn:Ecap.
-  { left. destruct (v1_total_proof co sc cs nm fwd ib text pat wp) as [r Hr]. exists r.
-    split; [exact Hr|]. right. left.
-    rewrite fuzzy_v2_unfold. fold pat. cbv zeta.
-    destruct (Nat.ltb_spec (length text) (length pat)); [lia|]. rewrite Ecap. reflexivity. }
-  destruct (afi_total ib text pat cs) as [r Hr]. rewrite Hr. cbn [bind].
-  destruct r as [[lo hi]|]; [|left; exists NoMatch; split; [reflexivity|left; reflexivity]].
-  destruct (afi_window_sound co cs nm Hn ib text pat lo hi ltac:(discriminate) Ha Hr) as [R1 [R2 _]].
-  destruct (Nat.ltb_spec hi lo); [lia|]. destruct (Nat.ltb_spec (length text) hi); [lia|]. cbn [orb].
-  destruct (Nat.eqb_spec (length pat) 1) as [E1|E1].
-  { left. destruct (negb _); eexists; (split; [reflexivity|]); [left; reflexivity|right; right; exact E1]. }
-  set (st := phase2 co sc cs nm fwd false _ O p0 pat (last pat 0) 0 (s_init sc) false _).
-  destruct (Nat.eqb_spec (p2_pidx st) (length pat)) as [Ep|Ep]; cbn [negb].
-  2:{ left. exists NoMatch. split; [reflexivity|left; reflexivity]. }
-  right. exists lo, hi.
-  assert (H2 : (2 <= length pat)%nat) by (unfold pat in *; cbn [length] in *; lia).
-  split; [exact H2|]. split; [lia|]. split; [exact Hr|]. split; [lia|].
-  cbv zeta. fold init_p2 in st. fold st. split; [exact Ep|].
-  pose proof (fuzzy_v2_M2_proof co sc cs nm fwd ib text p0 pat' wp cap lo hi H2 ltac:(fold pat; lia) Ecap Hr ltac:(lia)) as G.
-  cbv zeta in G. fold pat in G. fold init_p2 in G. fold st in G. specialize (G Ep). destruct G as [G1 G2].
-  split; [|exact G2].
-  rewrite <- G1. rewrite fuzzy_v2_unfold. fold pat. cbv zeta.
-  destruct (Nat.ltb_spec (length text) (length pat)); [lia|]. rewrite Ecap, Hr. cbn [bind].
-  destruct (Nat.ltb_spec hi lo); [lia|]. destruct (Nat.ltb_spec (length text) hi); [lia|]. cbn [orb].
-  destruct (Nat.eqb_spec (length pat) 1); [contradiction|].
-  fold init_p2. fold st. destruct (Nat.eqb_spec (p2_pidx st) (length pat)); [reflexivity|contradiction].
-Qed.
+  assert (Hlen : length pat = S (length pat')) by reflexivity.
+  pose proof (fuzzy_v2_unfold co sc cs nm fwd ib text pat wp cap) as U. cbv zeta in U.
+  change (match pat with [] => Ok (Match 0 0 0 (if wp then Some [] else None)) | p1 :: _ => ?X p1 end) with (X p0) in U.
+Abort.
